@@ -39,6 +39,7 @@ type Analysis struct {
 	Contexts            int
 	lazy                map[*ssa.Function]*lazyHelper
 	lazyInst            map[*ssa.Global][]lazyInst
+	inlineProblem       []*lazyHelper
 	LazyGuard           map[*ssa.Global]*ssa.Global // guard -> the map it guards through a lazy helper
 	genVarField         string                      // W2: the template data field holding the variable name
 	genWordsField       string                      // W2: … and the one holding the words
